@@ -16,6 +16,12 @@ _FP_BP = dict(_FP_FILE, write_data_block="c13_write_data_block", do_block="c14_d
               set_worker_ptr="c13_pool_set_worker_ptr")
 
 HARNESSES = [
+    dict(name="main_mkfs", file="main_mkfs.c", label="proved",
+         fp={"destroy": ["sort_destroy", "dir_destroy"], "flush": "c13_ostream_flush"},
+         timeout=300, cases=[dict(id="all", tier="quick")]),
+    dict(name="main_tar2sqfs", file="main_tar2sqfs.c", label="proved",
+         fp={"destroy": ["in_destroy", "it_destroy"]},
+         timeout=300, cases=[dict(id="all", tier="quick")]),
     dict(name="bp_fragment", file="bp_fragment.c",
          label="bounded(block index <= 11, payload <= 16)", fp=_FP_BP, unwind=6, timeout=900,
          cases=[dict(id="avail0", defines={"INODE_AVAIL": 0}, tier="quick"),
